@@ -387,7 +387,7 @@ def run(ctx):
     # non-vacuity: the model of the code before the two fixes must be refuted; the shadow class must be in the space.
     # The five TLC runs are independent and run side by side.
     nd = ndecl(2)
-    npairs, ntriples = (30, 60) if not T else (0, 2000)
+    npairs, ntriples = (25, 50) if not T else (0, 2000)
     picks = set()
     while len(picks) < npairs:
         picks.add(tuple(sorted(ctx.rng.sample(range(1, nd + 1), 2))))
